@@ -523,7 +523,10 @@ def run_check(pid, tier="quick", seed=None, replay=None):
                             if l.strip() and not l.startswith("#"):
                                 ops.append(l)
                                 optags.append("corpus")
-                rc, out, err = run_lines(hx, ["gen", str(seed), tier], [], timeout=1800)
+                try:
+                    rc, out, err = run_lines(hx, ["gen", str(seed), tier], [], timeout=1800)
+                except subprocess.TimeoutExpired:
+                    rc, out, err = -999, [], "harness gen timed out after 1800 s"
                 if rc != 0:
                     breaks.append(("B", "harness gen failed rc=%d %s" % (rc, err[-400:])))
                 for l in out:
